@@ -2,7 +2,8 @@
 
 R-COPY / R-LAYOUT: every construction, read and write path of every vector type and of Quat/DQuat is
 pinned to one lane<->byte-offset map: constructors place argument i in lane i; readers (fields through
-Deref, Index, to_array, write_to_slice, AsRef, Debug/Display) deliver lane i from byte offset i*size;
+Deref, Index, to_array, From into arrays / tuples, write_to_slice, AsRef, Debug/Display) deliver lane i from byte offset i*size;
+from_array and From<[T; N]> / From<(T, ..)> place element i in lane i; map(f) calls f once per lane in order (R-MAP);
 writers (DerefMut, IndexMut, AsMut, with_x..w) expose / change exactly lane i (frame condition)."""
 import re
 import terms as tm
